@@ -768,8 +768,8 @@ def run_shape(shape, chain, langs):
                     good = good and c[1] - c[0] < 40000 and x[1] == o[0][i + 1][0]
         if good and (dev or o1 != o2):
             kind = "short-cue-sami-zero-length-end"
-    elif shape == "multi-language" and o1 and o2 and o1 == o2 \
-            and sorted(l for l in last1.v if last1.v[l][0]) == [LANGS[0]]:
+    elif shape == "multi-language" and o1 and sorted(l for l in last1.v if last1.v[l][0]) == [LANGS[0]]:
+        # classified on the first pass (a second pass may merge the appended cues further)
         # everything arrives under the reader's language; a SAMI hop before may have re-ordered the languages
         f = chain[-1]
         starts_ok = lambda ts, cs: len(ts) == len(cs) and all(near(t[0], c[0], unit) for t, c in zip(ts, cs))
@@ -777,7 +777,7 @@ def run_shape(shape, chain, langs):
         for perm in itertools.permutations(range(len(langs))):
             if f == 1:      # only the first language is written
                 cu = langs[perm[0]][0]
-                if oracle1(802, [chain, [list(c) for c in cu], Ok(o1[0]), Ok(o2[0])]) == 1 and o1[1] == want_t[perm[0]]:
+                if oracle1(802, [chain, [list(c) for c in cu], Ok(o1[0]), Ok(o1[0])]) == 1 and o1[1] == want_t[perm[0]]:
                     kind = "multi-language-vtt-dropped"
             elif f == 4:    # all languages' cues in one list
                 if starts_ok(o1[0], [c for k in perm for c in langs[k][0]]) and o1[1] == [x for k in perm for x in want_t[k]]:
